@@ -7,6 +7,7 @@ package main
 import (
 	"errors"
 	"fmt"
+	"os/exec"
 	"strconv"
 	"strings"
 	"sync"
@@ -237,21 +238,45 @@ func c16PeerBridge(peerOf func() (*c16Conn, error), dev sim.Device, start func()
 	}
 }
 
-func c16CLISession(kind string, cmds []string, n int, seed uint64) c16Session {
+// c16TType maps a peer kind to the scrapligo transport name ("openssh" is the system transport with
+// the real ssh binary).
+func c16TType(kind string) string {
+	if kind == "openssh" {
+		return transport.SystemTransport
+	}
+	return kind
+}
+
+func c16SessionOpts(kind string, n int, ops time.Duration) []util.Option {
+	opts := []util.Option{options.WithTimeoutOps(ops), options.WithTransportReadSize(n),
+		options.WithReadDelay(50 * time.Microsecond)}
+	if kind != "openssh" { // the real ssh asks for the password on the pty: in-channel authentication
+		opts = append(opts, options.WithAuthBypass())
+	}
+	return opts
+}
+
+const (
+	c16SessionOps = 8 * time.Second
+	// sessions that probe one recorded defect each (a reply that never comes costs one timeout)
+	c16ShortOps = 3 * time.Second
+)
+
+func c16CLISession(kind string, cmds []string, n int, seed uint64, ops time.Duration) c16Session {
 	var s c16Session
 	dev := c16CLIDevice()
-	opts := []util.Option{options.WithAuthBypass(), options.WithTimeoutOps(20 * time.Second), options.WithTransportReadSize(n)}
+	opts := c16SessionOpts(kind, n, ops)
 	stop := func() error { return nil }
 	if kind == "ideal" {
 		dev.Start()
-		opts = append(opts, options.WithCustomTransport(dev), options.WithReadDelay(50*time.Microsecond))
+		opts = append(opts, options.WithCustomTransport(dev))
 	} else {
 		topts, peerOf, err := c16TransportOpts(kind, "shell", []byte{255, 253, 1, 255, 251, 3}, seed)
 		if err != nil {
 			s.open = "peer-setup: " + err.Error()
 			return s
 		}
-		opts = append(opts, options.WithTransportType(kind))
+		opts = append(opts, options.WithTransportType(c16TType(kind)))
 		opts = append(opts, topts...)
 		stop = c16PeerBridge(peerOf, dev, dev.Start)
 	}
@@ -315,21 +340,25 @@ func c16NCServer(v11 bool, seed uint64) *sim.NCServer {
 	return srv
 }
 
-func c16NCSession(kind string, v11 bool, n int, seed uint64) c16Session {
+func c16NCSession(kind string, v11 bool, longLine bool, n int, seed uint64) c16Session {
 	var s c16Session
 	srv := c16NCServer(v11, seed)
-	opts := []util.Option{options.WithAuthBypass(), options.WithTimeoutOps(20 * time.Second), options.WithTransportReadSize(n)}
+	ops := c16SessionOps
+	if longLine {
+		ops = c16ShortOps
+	}
+	opts := c16SessionOpts(kind, n, ops)
 	stop := func() error { return nil }
 	if kind == "ideal" {
 		srv.Start()
-		opts = append(opts, options.WithCustomTransport(srv), options.WithReadDelay(50*time.Microsecond))
+		opts = append(opts, options.WithCustomTransport(srv))
 	} else {
 		topts, peerOf, err := c16TransportOpts(kind, "netconf", nil, seed)
 		if err != nil {
 			s.open = "peer-setup: " + err.Error()
 			return s
 		}
-		opts = append(opts, options.WithTransportType(kind))
+		opts = append(opts, options.WithTransportType(c16TType(kind)))
 		opts = append(opts, topts...)
 		stop = c16PeerBridge(peerOf, srv, srv.Start)
 	}
@@ -348,7 +377,19 @@ func c16NCSession(kind string, v11 bool, n int, seed uint64) c16Session {
 			var err error
 			var result string
 			var failed bool
-			if i%2 == 0 {
+			if longLine {
+				// one request whose XML has a line of more than 4096 bytes (scrapligo serialises a
+				// request on one line, so any configuration of that size does)
+				if i > 0 {
+					break
+				}
+				cfg := "<config><system xmlns=\"urn:example\"><banner>" + strings.Repeat("0123456789abcdef", 300+i*40) + "</banner></system></config>"
+				r, e := d.EditConfig("candidate", cfg)
+				err = e
+				if e == nil {
+					result, failed = r.Result, r.Failed != nil
+				}
+			} else if i%2 == 0 {
 				r, e := d.GetConfig("running")
 				err = e
 				if e == nil {
@@ -417,24 +458,89 @@ func c16RunSession(c *ctx, what, kind string, n int, seed uint64) {
 	switch what {
 	case "cli":
 		cmds := c16Cmds(vlib.NewRng(seed))
-		ideal = c16CLISession("ideal", cmds, n, seed)
-		real = c16CLISession(kind, cmds, n, seed)
+		ideal = c16CLISession("ideal", cmds, n, seed, c16SessionOps)
+		real = c16CLISession(kind, cmds, n, seed, c16SessionOps)
+	case "cli-tilde":
+		// input lines that start with '~' (the OpenSSH client's escape character when it has a tty)
+		cmds := []string{"show version", "~~ banner line", "show clock"}
+		ideal = c16CLISession("ideal", cmds, n, seed, c16ShortOps)
+		real = c16CLISession(kind, cmds, n, seed, c16ShortOps)
+	case "nc10", "nc11":
+		ideal = c16NCSession("ideal", what == "nc11", false, n, seed)
+		real = c16NCSession(kind, what == "nc11", false, n, seed)
+	case "nc10-longline", "nc11-longline":
+		ideal = c16NCSession("ideal", what == "nc11-longline", true, n, seed)
+		real = c16NCSession(kind, what == "nc11-longline", true, n, seed)
 	default:
-		ideal = c16NCSession("ideal", what == "nc11", n, seed)
-		real = c16NCSession(kind, what == "nc11", n, seed)
+		res.Fail("machinery", line, "unknown session kind", "c16:replay")
+		return
 	}
 	res.Case(line, true)
 	res.InDomain++
 	res.Count("session:" + what + "/" + kind)
 	res.TracesVsImpl++
 	if ideal.open != "nil" || ideal.close != "nil" {
-		res.Fail("machinery", line, "session over the ideal pipe did not open/close cleanly:\n"+ideal.String(), "c16:ideal-session")
+		res.Fail("oracle", line, "session over the ideal pipe (sim.Pipe behind Transport.read / Close) did not open/close cleanly:\n"+ideal.String(), "c16:ideal-session")
 		return
 	}
 	if ideal.String() != real.String() {
-		res.Fail("oracle", line, fmt.Sprintf("%s session over the %s transport differs from the same session over the ideal pipe\n--- ideal\n%s--- %s\n%s", what, kind, ideal.String(), kind, real.String()),
-			"c16:"+kind+":"+what+"-session-differs")
+		sig := "c16:" + kind + ":" + what + "-session-differs"
+		// finer classes for the ways the real OpenSSH client on a pty is known not to be transparent
+		if kind == "openssh" {
+			tildes := func(s c16Session) int {
+				n := 0
+				for _, l := range s.lines {
+					n += strings.Count(l.Line, "~")
+				}
+				return n
+			}
+			echoed := false
+			for _, r := range real.results {
+				if strings.Contains(r, "<hello") || strings.Contains(r, "</rpc>") {
+					echoed = true
+				}
+			}
+			switch {
+			case what == "cli-tilde" && tildes(real) < tildes(ideal):
+				sig = "c16:openssh:tilde-escape-consumed"
+			case strings.HasSuffix(what, "-longline"):
+				sig = "c16:openssh:netconf-long-line-cut"
+			case strings.HasPrefix(what, "nc") && echoed:
+				sig = "c16:openssh:netconf-tty-echo-in-reply"
+			}
+		}
+		res.Fail("oracle", line, fmt.Sprintf("%s session over the %s transport differs from the same session over the ideal pipe: %s", what, kind, c16Diff(ideal.String(), real.String())),
+			sig)
 	}
+}
+
+// c16Diff shows the first differing line of two session records.
+func c16Diff(a, b string) string {
+	la, lb := strings.Split(a, "\n"), strings.Split(b, "\n")
+	cut := func(s string) string {
+		if len(s) > 420 {
+			return s[:300] + "…" + s[len(s)-100:]
+		}
+		return s
+	}
+	nd := 0
+	first := ""
+	for i := 0; i < len(la) || i < len(lb); i++ {
+		var x, y string
+		if i < len(la) {
+			x = la[i]
+		}
+		if i < len(lb) {
+			y = lb[i]
+		}
+		if x != y {
+			nd++
+			if first == "" {
+				first = fmt.Sprintf("first difference at record line %d\n  ideal: %s\n  real:  %s", i, cut(x), cut(y))
+			}
+		}
+	}
+	return fmt.Sprintf("%d record line(s) differ; %s", nd, first)
 }
 
 func c16ReplaySession(c *ctx, line string) {
@@ -456,10 +562,21 @@ func c16Sessions(c *ctx) {
 		seed       uint64
 	}
 	var jobs []job
-	rounds := c.n(1, 8)
+	_, sshErr := exec.LookPath("ssh")
+	haveSSH := sshErr == nil
+	if !haveSSH {
+		c.res.Note("no ssh binary in PATH: sessions over the system transport with the real OpenSSH client skipped")
+	}
+	rounds := c.n(2, 12)
 	for i := 0; i < rounds; i++ {
-		sizes := []int{8192, 1, 7, 100, 65535, 4096, 33, 1500}
-		for _, kind := range []string{"system", "standard", "telnet"} {
+		sizes := []int{8192, 64, 256, 100, 65535, 4096, 333, 1500}
+		cliKinds := []string{"system", "standard", "telnet"}
+		ncKinds := []string{"system", "standard"}
+		if haveSSH {
+			cliKinds = append(cliKinds, "openssh")
+			ncKinds = append(ncKinds, "openssh")
+		}
+		for _, kind := range cliKinds {
 			n := sizes[(i+r.Intn(len(sizes)))%len(sizes)]
 			if i == 0 {
 				n = 8192
@@ -469,7 +586,7 @@ func c16Sessions(c *ctx) {
 			}
 			jobs = append(jobs, job{"cli", kind, n, r.U64()})
 		}
-		for _, kind := range []string{"system", "standard"} {
+		for _, kind := range ncKinds {
 			for _, what := range []string{"nc10", "nc11"} {
 				n := sizes[(i+r.Intn(len(sizes)))%len(sizes)]
 				if i == 0 {
@@ -481,6 +598,14 @@ func c16Sessions(c *ctx) {
 				jobs = append(jobs, job{what, kind, n, r.U64()})
 			}
 		}
+	}
+	// lines longer than the tty's canonical-mode limit, and lines that start with the ssh escape
+	// character, once per transport
+	for _, kind := range append([]string{"system", "standard"}, map[bool][]string{true: {"openssh"}}[haveSSH]...) {
+		jobs = append(jobs, job{"nc10-longline", kind, 8192, r.U64()}, job{"nc11-longline", kind, 8192, r.U64()})
+	}
+	for _, kind := range append([]string{"system", "standard", "telnet"}, map[bool][]string{true: {"openssh"}}[haveSSH]...) {
+		jobs = append(jobs, job{"cli-tilde", kind, 8192, r.U64()})
 	}
 	// sessions write into c.res: run them one after another (each is a few hundred ms)
 	for _, j := range jobs {
